@@ -63,10 +63,10 @@ macro_rules! c03_poisson_knuth {
         vproof! {
             #[kani::unwind(6)]
             fn $name() {
+                let mut rng = SymRng::new(4); // all symbolic inputs are drawn first (replay alignment)
                 let lambda: $f = kani::any();
                 kani::assume(lambda < 12.0);
                 let d = match Poisson::<$f>::new(lambda) { Ok(d) => d, Err(_) => return };
-                let mut rng = SymRng::new(4);
                 // (the Method::Knuth arm of Poisson::sample, called directly to keep the PD method out of the formula)
                 let x: $f = match &d.0 { Method::Knuth(m) => m.sample(&mut rng), _ => return };
                 // Knuth: result k needs exactly k+1 draws
@@ -99,10 +99,10 @@ macro_rules! c03_poisson_rej {
         vproof_zstub! {
             #[kani::unwind(4)]
             fn $name() {
+                let mut rng = SymRng::new(4); // all symbolic inputs are drawn first (replay alignment)
                 let lambda: $f = kani::any();
                 kani::assume(lambda >= 12.0 && lambda <= $maxl);
                 let d = match Poisson::<$f>::new(lambda) { Ok(d) => d, Err(_) => return };
-                let mut rng = SymRng::new(4);
                 let x: $f = match &d.0 { Method::Rejection(m) => m.sample(&mut rng), _ => return };
                 vassert!(x == x, "Poisson(rejection) sample is NaN");
                 vassert!(x >= 0.0, "Poisson(rejection) sample is negative");
